@@ -614,7 +614,10 @@ class TList(list):
 
     def append(self, x): self._w(); list.append(self, x)
     def extend(self, it):
-        it = list(it); self._w(); list.extend(self, it)
+        it = list(it)
+        if it:
+            self._w()       # (extending by nothing leaves the object as it was)
+        list.extend(self, it)
     def insert(self, i, x): self._w(); list.insert(self, i, x)
     def pop(self, *a): self._w(); return list.pop(self, *a)
     def remove(self, x): self._w(); list.remove(self, x)
@@ -623,4 +626,8 @@ class TList(list):
     def reverse(self): self._w(); list.reverse(self)
     def __setitem__(self, i, v): self._w(); list.__setitem__(self, i, v)
     def __delitem__(self, i): self._w(); list.__delitem__(self, i)
-    def __iadd__(self, o): self._w(); return list.__iadd__(self, o)
+    def __iadd__(self, o):
+        o = list(o)
+        if o:
+            self._w()
+        return list.__iadd__(self, o)
